@@ -186,8 +186,9 @@ class Ctx:
         cov.update(self.notes)
         ev = dict(property_id=self.pid, tier=self.tier, seed=int(self.seed), level="model_checking", coverage=cov,
                   assumptions=self.assumptions, wall_s=round(wall, 2), violations=len(new))
-        os.makedirs(EVID, exist_ok=True)
-        with open(os.path.join(EVID, self.pid + ".json"), "w") as f:
+        evdir = EVID if not self.pid.startswith("X") else os.path.join(EVID, "extra")      # X..: specifications beyond the listed properties
+        os.makedirs(evdir, exist_ok=True)
+        with open(os.path.join(evdir, self.pid + ".json"), "w") as f:
             json.dump(ev, f, indent=1, default=str)
         self.log("done: states=%d transitions=%d impl-cases=%d traces=%d violations(new)=%d known=%d drift=%d wall=%.1fs" % (
             self.states, self.transitions, self.evaluations, self.traces, len(new), len(seen_known), len(self.drift), wall))
